@@ -550,41 +550,48 @@ theorem koGenes_step (gs : List Id) (y : Sys) (gd : Good y.s) (hall : ∀ g ∈ 
 
 def keysNodup (ps : List (Id × Rat)) : Prop := (ps.map (·.1)).Nodup
 
-theorem loop_other (combine : Bool) (r : Id) (present : Id → Bool) (ps : List (Id × Rat)) (st : Id → Id → Rat)
-    (r' m : Id) (h : r' ≠ r) : addMetsLoop combine r present ps st r' m = st r' m := by
-  induction ps generalizing st with
-  | nil => rfl
-  | cons p ps ih => obtain ⟨a, c⟩ := p; simp only [addMetsLoop]; rw [ih]; simp [upd2, h]
+theorem lookupA_cons (a : Id) (v : Rat) (acc : List (Id × Rat)) (m : Id) :
+    lookupA ((a, v) :: acc) m = if a = m then some v else lookupA acc m := by
+  unfold lookupA
+  simp only [List.find?_cons]
+  by_cases h : a = m
+  · simp [h]
+  · have : (a == m) = false := by simpa using h
+    simp [this, h]
 
-theorem loop_untouched (combine : Bool) (r : Id) (present : Id → Bool) (ps : List (Id × Rat)) (st : Id → Id → Rat)
-    (m : Id) (h : ∀ p ∈ ps, p.1 ≠ m) : addMetsLoop combine r present ps st r m = st r m := by
-  induction ps generalizing st with
-  | nil => rfl
+theorem loop_lookup (combine : Bool) (base : Id → Rat) (present : Id → Bool) (ps acc : List (Id × Rat))
+    (hn : keysNodup ps) (hd : ∀ p ∈ ps, lookupA acc p.1 = none) (m : Id) :
+    lookupA (addMetsLoop combine base present ps acc) m =
+      match ps.find? (fun p => p.1 == m) with
+      | some p => some (if present m = true ∧ combine = true then base m + p.2 else p.2)
+      | none => lookupA acc m := by
+  induction ps generalizing acc with
+  | nil => simp [addMetsLoop]
   | cons p ps ih =>
     obtain ⟨a, c⟩ := p
-    simp only [addMetsLoop]
-    rw [ih _ (fun q hq => h q (List.mem_cons_of_mem _ hq))]
-    have : m ≠ a := fun e => h (a, c) (by simp) e.symm
-    simp [upd2, this]
-
-theorem loop_touched (combine : Bool) (r : Id) (present : Id → Bool) (ps : List (Id × Rat)) (st : Id → Id → Rat)
-    (hn : keysNodup ps) (m : Id) (c : Rat) (hm : (m, c) ∈ ps) :
-    addMetsLoop combine r present ps st r m = if present m = true ∧ combine = true then st r m + c else c := by
-  induction ps generalizing st with
-  | nil => simp at hm
-  | cons p ps ih =>
-    obtain ⟨a, d⟩ := p
     simp only [keysNodup, List.map_cons, List.nodup_cons] at hn
     simp only [addMetsLoop]
-    rcases List.mem_cons.1 hm with heq | hin
-    · injection heq with h1 h2; subst h1 h2
-      rw [loop_untouched]
-      · simp [upd2]
-      · intro q hq hqm
-        exact hn.1 (List.mem_map.2 ⟨q, hq, hqm⟩)
-    · rw [ih _ hn.2 hin]
-      have : m ≠ a := fun e => hn.1 (List.mem_map.2 ⟨(m, c), hin, e⟩)
-      simp [upd2, this]
+    have hcur : lookupA acc a = none := hd (a, c) (by simp)
+    rw [ih _ hn.2]
+    · simp only [List.find?_cons]
+      by_cases h : a = m
+      · subst h
+        have hnone : ps.find? (fun p => p.1 == a) = none := by
+          apply List.find?_eq_none.2
+          intro q hq hqa
+          simp only [beq_iff_eq] at hqa
+          exact hn.1 (List.mem_map.2 ⟨q, hq, hqa⟩)
+        simp [hnone, lookupA_cons, hcur]
+      · have : (a == m) = false := by simpa using h
+        simp only [this]
+        cases hf : ps.find? (fun p => p.1 == m) with
+        | some q => rfl
+        | none => simp [lookupA_cons, h]
+    · intro q hq
+      rw [lookupA_cons]
+      have hne : a ≠ q.1 := fun e => hn.1 (List.mem_map.2 ⟨q, hq, e.symm⟩)
+      simp [hne]
+      exact hd q (List.mem_cons_of_mem _ hq)
 
 theorem touched_iff (ps : List (Id × Rat)) (m : Id) :
     (ps.any (fun p => p.1 == m)) = true ↔ ∃ c, (m, c) ∈ ps := by
@@ -606,23 +613,11 @@ theorem addMets_st (s : St) (r : Id) (ps : List (Id × Rat)) (combine : Bool) (h
   by_cases hr : r' = r
   · subst hr
     simp only [if_true]
+    rw [loop_lookup combine _ _ ps [] hn (by intro p _; rfl)]
     cases hf : ps.find? (fun p => p.1 == m) with
-    | none =>
-      rw [loop_untouched]
-      intro p hp hpm
-      have := List.find?_eq_none.1 hf p hp
-      simp [hpm] at this
-    | some p =>
-      have hmem := List.mem_of_find?_eq_some hf
-      have hk := List.find?_some hf
-      simp only [beq_iff_eq] at hk
-      obtain ⟨a, c⟩ := p
-      simp only at hk; subst hk
-      rw [loop_touched combine r' _ ps s.st hn a c hmem]
-      simp
+    | none => simp [lookupA]
+    | some p => simp
   · simp only [hr, if_false]
-    exact loop_other _ _ _ _ _ _ _ hr
-
 
 theorem touched_find (ps : List (Id × Rat)) (m : Id) :
     (ps.any (fun p => p.1 == m)) = (ps.find? (fun p => p.1 == m)).isSome := by
